@@ -328,6 +328,14 @@ class Run:
 
     # ---- scripted actions
     def do_action(self, sidx, strategy, market, a, state):
+        self._last_order = None
+        r = self._do_action(sidx, strategy, market, a, state)
+        h = self.hooks.get("on_action")
+        if h:
+            h(self, sidx, market, a, r, self._last_order)
+        return r
+
+    def _do_action(self, sidx, strategy, market, a, state):
         from flumine.order.trade import Trade
         from flumine.order import ordertype as ot
         from flumine.exceptions import OrderError, OrderUpdateError
@@ -351,6 +359,7 @@ class Run:
                 o = t.create_order(side, otype)
                 o._vidx = len(self.orders)
                 self.orders.append(o)
+                self._last_order = o
                 return "created"
             if k == "bbegin":
                 state["t"] = market.transaction(client=self.clients[a[1]])
@@ -372,6 +381,7 @@ class Run:
                 o = self.orders[int(tg[1:])] if tg[0] == "o" else self.trades[int(tg[1:])].orders[-1]
             except (IndexError, KeyError):
                 return "no-such-order"
+            self._last_order = o
             t = state.get("t")
             if k == "place":
                 r = (t.place_order(o, a[2], True, a[3]) if t else market.place_order(o, market_version=a[2], force=a[3]))
